@@ -14,10 +14,15 @@ pub struct Focus {
     pub w: [u64; 11],
     pub len: (u64, u64),
     pub big_amounts: bool,
+    /// share (out of 100) of frontend-helper operations when the world has a helper
+    pub helper_w: u64,
+    /// Some((a0, a1)): deploy the world with a real pair over (a0, a1), its LP token (asset 10), and the frontend helper
+    pub helper_assets: Option<(i64, i64)>,
 }
-pub fn focus_c12() -> Focus { Focus { w: [12, 8, 16, 13, 8, 14, 9, 4, 4, 3, 3], len: (14, 34), big_amounts: true } }
-pub fn focus_c11() -> Focus { Focus { w: [8, 6, 5, 3, 3, 8, 18, 14, 14, 12, 4], len: (14, 34), big_amounts: true } }
-pub fn focus_c13() -> Focus { Focus { w: [14, 12, 6, 4, 2, 20, 14, 10, 10, 3, 1], len: (18, 40), big_amounts: false } }
+pub fn focus_c12() -> Focus { Focus { w: [12, 8, 16, 13, 8, 14, 9, 4, 4, 3, 3], len: (14, 34), big_amounts: true, helper_w: 0, helper_assets: None } }
+pub fn focus_c11() -> Focus { Focus { w: [8, 6, 5, 3, 3, 8, 18, 14, 14, 12, 4], len: (14, 34), big_amounts: true, helper_w: 0, helper_assets: None } }
+pub fn focus_c11_helper() -> Focus { Focus { w: [6, 5, 4, 2, 2, 8, 12, 8, 16, 14, 3], len: (12, 28), big_amounts: false, helper_w: 38, helper_assets: Some((1, 11)) } }
+pub fn focus_c13() -> Focus { Focus { w: [14, 12, 6, 4, 2, 20, 14, 10, 10, 3, 1], len: (18, 40), big_amounts: false, helper_w: 0, helper_assets: None } }
 
 pub fn gen_cfg(rng: &mut Rng, i: u64) -> IncCfg {
     // the six fee/flow kind combinations need: native fee / cw20 fee, lp native / cw20
@@ -72,6 +77,33 @@ impl Gen {
         let cfg = w.cfg.clone();
         let cur = w.epoch();
         let big = self.focus.big_amounts;
+        if w.helper.is_some() && rng.below(100) < self.focus.helper_w {
+            let user = 1 + rng.below(4) as i64;
+            if rng.chance(1, 8) {
+                // stray tokens sent to the helper (LP only if the sender holds some)
+                let asset = if w.bal(user, 10) > 0 && rng.chance(1, 2) { 10 } else { *rng.pick(&[w.pair_assets.0, w.pair_assets.1]) };
+                let amount = if asset == 10 { rng.range128(1, w.bal(user, 10).min(1000)) } else { rng.range128(1, 5000) };
+                return Op::Gift { sender: user, to: HELPER_ID, asset, amount };
+            }
+            let (a0, a1) = w.pair_assets;
+            let (mut d0, mut d1) = match rng.below(10) { 0 => (rng.range128(0, 30), rng.range128(0, 30)), 1 => (1_000_000, 1), _ => (rng.range128(1000, 5_000_000), rng.range128(1000, 5_000_000)) };
+            if rng.chance(1, 25) { d0 = 0; }
+            if rng.chance(1, 25) { d1 = 0; }
+            let existing = st.open.get(&w.name(user)).cloned().unwrap_or_default();
+            let dur = if !existing.is_empty() && rng.chance(1, 2) { rng.pick(&existing).1 } else if rng.chance(1, 12) { *rng.pick(&[86_399u64, 40_000_000]) } else { *rng.pick(&DURS) };
+            let mut funds: Coins = vec![]; let mut allow: Coins = vec![];
+            for (a, d) in [(a0, d0), (a1, d1)] { if a < 10 { funds.push((a, d)); } else { allow.push((a, d)); } }
+            if rng.chance(1, 5) {
+                match rng.below(5) {
+                    0 => if let Some(c) = allow.first_mut() { c.1 = perturb(rng, c.1); },
+                    1 => if let Some(c) = funds.first_mut() { c.1 = perturb(rng, c.1); },
+                    2 => { let d = rng.below(4) as i64; if !funds.iter().any(|c| c.0 == d) { funds.push((d, rng.range128(1, 5000))); } }
+                    3 => { funds.clear(); }
+                    _ => { allow.clear(); }
+                }
+            }
+            return Op::HelperDeposit { user, funds: sort_coins(funds), allow: sort_coins(allow), a0, d0, a1, d1, dur, pair_ok: true, minted: 0 };
+        }
         let total: u64 = self.focus.w.iter().sum();
         let mut k = rng.below(total);
         let mut kind = 0;
@@ -352,6 +384,17 @@ pub fn monitor_c11(m: &mut Mon, w: &IncWorld, pre: &Snap, op: &Op, ok: bool, pos
             m.check(others_same(&n), "close_position: another user's positions changed");
             m.check(post.b(SELF_ID, lp) == pre.b(SELF_ID, lp), "close_position moved LP tokens");
         }
+        Op::HelperDeposit { user, dur, minted, .. } => {
+            let n = w.name(*user);
+            let staked = pre.b(HELPER_ID, lp) + *minted;
+            m.check(post.b(HELPER_ID, lp) == 0, &format!("helper_keeps_nothing: the frontend helper still holds {} LP tokens after a deposit", post.b(HELPER_ID, lp)));
+            for s in ASSETS { if s != lp { m.check(post.b(HELPER_ID, s) == pre.b(HELPER_ID, s), &format!("helper_keeps_nothing: the frontend helper's balance of asset {} changed from {} to {}", s, pre.b(HELPER_ID, s), post.b(HELPER_ID, s))); } }
+            m.check(d(post.b(SELF_ID, lp), pre.b(SELF_ID, lp)) == staked as i128, "helper deposit: the incentive contract did not receive helper balance + minted LP");
+            let p0 = pre.st.open.get(&n).and_then(|v| v.iter().find(|p| p.1 == *dur)).map(|p| p.0).unwrap_or(0);
+            let p1 = post.st.open.get(&n).and_then(|v| v.iter().find(|p| p.1 == *dur)).map(|p| p.0).unwrap_or(0);
+            m.check(p1 == p0 + staked, "helper deposit: the user's position did not grow by what the helper staked");
+            m.check(others_same(&n) && post.st.closed.get(&n) == pre.st.closed.get(&n), "helper deposit: somebody else's positions changed");
+        }
         _ => { m.check(post.st.open == pre.st.open && post.st.closed == pre.st.closed, "positions changed by an operation that is not a position operation"); }
     }
 }
@@ -393,7 +436,8 @@ pub struct CaseResult { pub ops: Vec<Op>, pub obs: Vec<String>, pub ok_ops: u64,
 /// run one history (scripted prefix, then generated ops) on a fresh deployment; monitors of `prop` run after every op
 pub fn run_case(out: &mut Out, rng: &mut Rng, cfg: &IncCfg, script: Vec<Op>, gen_len: u64, focus: &Focus, prop: &'static str, tag: &str,
                 extra: &mut dyn FnMut(&mut Mon, &IncWorld, &Snap, &Op, bool, &Snap)) -> Option<CaseResult> {
-    let mut w = match IncWorld::deploy(cfg) { Ok(w) => w, Err(e) => { out.count(&format!("deploy_failed:{}", &e[..e.len().min(40)])); return None; } };
+    let dep = match focus.helper_assets { Some((a0, a1)) => IncWorld::deploy_with_helper(cfg, a0, a1), None => IncWorld::deploy(cfg) };
+    let mut w = match dep { Ok(w) => w, Err(e) => { out.count(&format!("deploy_failed:{}", &e[..e.len().min(40)])); return None; } };
     let mut g = Gen::new(focus.clone());
     for o in script.iter() { g.pending.push_back(o.clone()); }
     let total = script.len() as u64 + gen_len;
@@ -408,7 +452,7 @@ pub fn run_case(out: &mut Out, rng: &mut Rng, cfg: &IncCfg, script: Vec<Op>, gen
         let ok = r.is_ok();
         let post = snap(&w);
         ops.push(op.clone());
-        let replay = json!({"kind": "incentive_history", "tag": tag, "cfg": cfg, "ops": ops, "failing_step": ops.len() - 1,
+        let replay = json!({"kind": "incentive_history", "tag": tag, "cfg": cfg, "helper_assets": focus.helper_assets, "ops": ops, "failing_step": ops.len() - 1,
                             "last_result": match &r { Ok(_) => "ok".to_string(), Err(e) => e.chars().take(160).collect() }});
         {
             let mut m = Mon { out, prop, replay, fails: 0 };
@@ -445,7 +489,10 @@ pub fn run_case(out: &mut Out, rng: &mut Rng, cfg: &IncCfg, script: Vec<Op>, gen
 }
 
 pub fn emit_case(out: &mut Out, stream_base: &str, idx: u64, nstreams: u64, cfg: &IncCfg, r: &CaseResult, tag: &str) {
+    emit_case_h(out, stream_base, idx, nstreams, cfg, r, tag, None)
+}
+pub fn emit_case_h(out: &mut Out, stream_base: &str, idx: u64, nstreams: u64, cfg: &IncCfg, r: &CaseResult, tag: &str, helper_assets: Option<(i64, i64)>) {
     let input = format!("({}, {})", cfg.coq(), coq_ops(&r.ops));
-    let replay = json!({"kind": "incentive_history", "tag": tag, "cfg": cfg, "ops": r.ops});
+    let replay = json!({"kind": "incentive_history", "tag": tag, "cfg": cfg, "helper_assets": helper_assets, "ops": r.ops});
     out.case(&format!("{}{}", stream_base, idx % nstreams), &input, &r.obs, replay);
 }
